@@ -52,8 +52,18 @@ let check inp obs =
   | ["cmp"; a; b; c; d] ->
     let u = { upper = n_of_hex a; lower = n_of_hex b } and w = { upper = n_of_hex c; lower = n_of_hex d } in
     let m = (match compare0 u w with Eq -> "0" | Lt -> "-1" | Gt -> "1") in
-    { (ok ~tags:"cmp" ()) with model_eq = (m = obs); prop_ok = (m = obs);
+    { (ok ~tags:"cmp" ()) with model_eq = (m = obs);
       detail = if m = obs then "" else "model=" ^ m }
   | _ -> fail "C13: bad input %s" inp
 
-let () = run_driver check
+(* vm_compute cross-check: the same views recomputed inside Coq and compared with the
+   implementation's observables *)
+let coq inp obs =
+  match split_ws inp, split_ws obs with
+  | ["views"; up; lo], [s; js; le; be; _; _; _] ->
+    Some (Printf.sprintf "let u := mk128 %s %s in bytes_eqb (to_string u) %s && bytes_eqb (marshal_json u) %s && bytes_eqb (bytes LE u) %s && bytes_eqb (bytes BE u) %s"
+      (coq_n (n_of_hex up)) (coq_n (n_of_hex lo))
+      (coq_bytes (bytes_of_hex s)) (coq_bytes (bytes_of_hex js)) (coq_bytes (bytes_of_hex le)) (coq_bytes (bytes_of_hex be)))
+  | _ -> None
+
+let () = run_driver ~coq check
